@@ -127,10 +127,11 @@ pub const WORKER_STACK: usize = 1 << 30;
 /// The running check, for the hang watchdog (set once by main).
 pub static BATCH_CTX: std::sync::OnceLock<Ctx> = std::sync::OnceLock::new();
 
-/// A single engine call (one command, one search) that runs longer than this many wall
-/// seconds is taken to hang: an engine loop that neither enters nodes nor reads the clock
-/// nor does I/O is invisible to the simulator's step caps. Healthy calls are bounded by the
-/// node caps (at most some ten seconds, a few minutes on an overloaded machine).
+/// A single engine call (one command, one search) from which the simulator sees no event
+/// (node entered, clock read, input read, output written) for this many wall seconds is
+/// taken to hang: an engine loop that does none of these is invisible to the simulator's
+/// step caps. A healthy call produces events all the time, however slow the machine is; the
+/// gap between two events is microseconds of engine work.
 pub fn hang_limit_secs() -> u64 {
     std::env::var("VERIF_HANG_SECS").ok().and_then(|s| s.parse().ok()).unwrap_or(300)
 }
@@ -140,6 +141,8 @@ fn watchdog(done: std::sync::Arc<std::sync::atomic::AtomicBool>) {
     if limit == 0 {
         return;
     }
+    // per thread: (event count last seen, when it last changed or the call began)
+    let mut seen: std::collections::HashMap<std::thread::ThreadId, (u64, Instant)> = std::collections::HashMap::new();
     loop {
         std::thread::sleep(std::time::Duration::from_secs(2));
         if done.load(Ordering::SeqCst) {
@@ -147,9 +150,31 @@ fn watchdog(done: std::sync::Arc<std::sync::atomic::AtomicBool>) {
         }
         let hung: Option<u64> = {
             let g = crate::simworld::ENGINE_CALLS.lock().unwrap_or_else(|e| e.into_inner());
-            g.iter().filter(|e| e.2.elapsed().as_secs() > limit).map(|e| e.1).min()
+            // a call hangs when the simulator has seen no event from it (node, clock read,
+            // input, output) for the limit - not merely when it takes long
+            let now = Instant::now();
+            let mut hung = None;
+            seen.retain(|k, _| g.iter().any(|e| e.0 == *k));
+            for e in g.iter() {
+                let beat = e.3.load(Ordering::Relaxed);
+                let entry = seen.entry(e.0).or_insert((beat, e.2));
+                if entry.0 != beat {
+                    *entry = (beat, now);
+                } else if entry.1 < e.2 {
+                    // a new call on this thread with the same count: the quiet period starts with the call
+                    entry.1 = e.2;
+                }
+                if now.duration_since(entry.1).as_secs() > limit {
+                    hung = Some(hung.map_or(e.1, |h: u64| h.min(e.1)));
+                }
+            }
+            hung
         };
         if let Some(sim) = hung {
+            if std::env::var("VERIF_HANG_CHILD").is_ok() {
+                // replay of a hang: just say so
+                std::process::exit(3);
+            }
             let code = report_hang(sim);
             std::process::exit(code);
         }
@@ -164,7 +189,7 @@ fn report_hang(sim: u64) -> i32 {
         return 2;
     };
     let limit = hang_limit_secs();
-    eprintln!("sim {} of this batch has been inside one engine call for more than {} s", sim, limit);
+    eprintln!("sim {} of this batch: no event from the engine for more than {} s inside one engine call", sim, limit);
     let known = load_known_findings(&ctx.verif_dir);
     if let Some(k) = known.iter().find(|k| k.property == ctx.prop && k.class == "engine_hangs") {
         println!("KNOWN-FINDING: property={} class=engine_hangs {}", ctx.prop, k.what);
@@ -177,7 +202,7 @@ fn report_hang(sim: u64) -> i32 {
     let doc = json!({
         "property": ctx.prop,
         "class": "engine_hangs",
-        "detail": format!("sim {} of the batch (seed {}, tier {}, scale {}) does not return from an engine call within {} s of wall time: the engine loops without entering a node, reading the clock or doing I/O", sim, ctx.seed, ctx.tier.name(), ctx.scale, limit),
+        "detail": format!("sim {} of the batch (seed {}, tier {}, scale {}): no event from the engine for {} s of wall time inside one engine call: it loops without entering a node, reading the clock or doing I/O", sim, ctx.seed, ctx.tier.name(), ctx.scale, limit),
         "hang": {"batch_seed": ctx.seed, "sim_index": sim, "tier": ctx.tier.name(), "scale": ctx.scale},
         "replay_cmd": format!("./check {} --replay {}", ctx.prop, path.display()),
     });
@@ -207,41 +232,32 @@ pub fn replay_hang(prop: &str, doc: &Value) -> i32 {
     let h = &doc["hang"];
     let limit = hang_limit_secs().max(1);
     let exe = std::env::current_exe().expect("current_exe");
-    let mut child = match std::process::Command::new(exe)
+    let out = std::process::Command::new(exe)
         .args(["check", prop, "--tier", h["tier"].as_str().unwrap_or("quick")])
         .env("VERIF_SEED", h["batch_seed"].as_u64().unwrap_or(1).to_string())
         .env("VERIF_ONLY_SIM", h["sim_index"].as_u64().unwrap_or(0).to_string())
         .env("VERIF_SCALE", h["scale"].as_f64().unwrap_or(1.0).to_string())
-        .env("VERIF_HANG_SECS", "0")
+        .env("VERIF_HANG_SECS", limit.to_string())
+        .env("VERIF_HANG_CHILD", "1")
         .env("VERIF_HASH_ONLY", "1")
         .stdout(std::process::Stdio::null())
         .stderr(std::process::Stdio::null())
-        .spawn()
-    {
-        Ok(c) => c,
+        .status();
+    // the child runs the same progress-based watchdog and exits with status 3 when the sim
+    // stands still for the limit
+    match out {
+        Ok(st) if st.code() == Some(3) => {
+            println!("REPLAYED class=engine_hangs event_log_hash=0000000000000000");
+            println!("  detail=sim {} of batch seed {}: no event from the engine for {} s inside one engine call", h["sim_index"], h["batch_seed"], limit);
+            1
+        }
+        Ok(_) => {
+            println!("REPLAY property={} no violation reproduced (the sim returned)", prop);
+            0
+        }
         Err(e) => {
             eprintln!("harness error: cannot spawn the replay: {}", e);
-            return 2;
-        }
-    };
-    let t0 = Instant::now();
-    loop {
-        match child.try_wait() {
-            Ok(Some(_)) => {
-                println!("REPLAY property={} no violation reproduced (the sim returned after {:.1} s)", prop, t0.elapsed().as_secs_f64());
-                return 0;
-            }
-            Ok(None) => {
-                if t0.elapsed().as_secs() > limit {
-                    let _ = child.kill();
-                    let _ = child.wait();
-                    println!("REPLAYED class=engine_hangs event_log_hash=0000000000000000");
-                    println!("  detail=sim {} of batch seed {} still inside an engine call after {} s", h["sim_index"], h["batch_seed"], limit);
-                    return 1;
-                }
-                std::thread::sleep(std::time::Duration::from_millis(500));
-            }
-            Err(_) => return 2,
+            2
         }
     }
 }
